@@ -4,6 +4,7 @@
   encoding) is a failing writer and an integer (partial: tied to the real binary by K).
 -/
 import Jawk.Model.Run
+import Jawk.Lemmas.LineBuffer
 namespace Jawk.C20
 open Jawk
 
@@ -49,6 +50,29 @@ theorem stdout_report_step (c : Cfg) (p : Pipeline) (fuel : Nat) (r r' : Reader)
       readLoop orc c p fuel r' inFile { s with out := s.out.put (reportBytes e) } := by
   rw [readLoop]
   simp [hn, hrec, hc, hw]
+
+/-! ### the line buffer between `go` and descriptor 1 (finding F25, repaired) -/
+
+/-- as long as no write has failed, what descriptor 1 got followed by what is still buffered is exactly what the run wrote,
+in order — for every sequence of writes, every buffer size, every failing offset of the descriptor -/
+theorem buffered_stdout_conservation (cap : Nat) (ws : List (List Byte)) (s : LineBuffer.LW)
+    (h : (LineBuffer.writes cap s ws).dev.failed = false) :
+    (LineBuffer.writes cap s ws).total = s.total ++ ws.flatten ∧ s.dev.failed = false :=
+  LineBuffer.conservation cap ws s h
+
+/-- `main` flushes after a successful run: exit status 0 means every byte `go` wrote reached descriptor 1 -/
+theorem exit_zero_means_delivered (cap : Nat) (dev : Writer) (ws : List (List Byte))
+    (h : (LineBuffer.flushedMain cap dev ws).1 = 0) :
+    (LineBuffer.flushedMain cap dev ws).2.out = dev.out ++ ws.flatten :=
+  LineBuffer.flushed_main_delivers cap dev ws h
+
+/-- F25 as it was: without that flush a row that does not end with a line feed is lost on a full device and the exit
+status is 0; with it the same run exits 255 (replayed on the binary by the C20 cases with `--row-seperator=,`) -/
+theorem unflushed_exit_loses_output :
+    (LineBuffer.unflushedMain 1024 { room := some 0 } [[49, 44]]).1 = 0 ∧
+    (LineBuffer.unflushedMain 1024 { room := some 0 } [[49, 44]]).2.out = [] ∧
+    (LineBuffer.flushedMain 1024 { room := some 0 } [[49, 44]]).1 = 255 :=
+  LineBuffer.unflushed_main_loses
 
 /-- non-vacuity: an invalid configuration is a failing run (exit code 255, message on fd 2) -/
 example : (mainModel {} { style := .csv, jsonOpts := some {} } [] {} {}).code = 255 := by decide
